@@ -43,6 +43,18 @@ def deep_ctrl_calendar(draw):
     return "ctrl@" + where, ("\r\n".join(L) + "\r\n").encode("utf-8")
 
 
+def _maybe_prestore(draw, steps, raw, fe, slot):
+    """The same (invalid) bytes may already be in the collection's repository under a name / media type
+    that is not validated (a memo uploaded as application/octet-stream), possibly deleted again:
+    whether a body is accepted must not depend on that."""
+    k = draw(st.integers(0, 5))
+    if k >= 2 or not raw:
+        return
+    steps.append({"op": "PUT", "fe": fe, "coll": slot, "name": "memo.txt", "ctype": "application/octet-stream", "body": enc_body(raw), "cond": []})
+    if k == 1:
+        steps.append({"op": "DELETE", "fe": fe, "coll": slot, "name": "memo.txt", "cond": []})
+
+
 @st.composite
 def c14_program(draw):
     cfg = {"prefix": draw(st.sampled_from(gen_prog.PREFIXES)), "seed": []}
@@ -64,12 +76,15 @@ def c14_program(draw):
             steps.append({"op": "C14", "fe": fe, "coll": "a1", "name": draw(st.sampled_from(vcf)), "ctype": "text/vcard", "body": enc_body(draw(gen.vcard())["raw"]), "valid": True, "klass": "vcard"})
         elif fam == "badcal":
             k, raw = draw(gen.invalid_calendar())
+            _maybe_prestore(draw, steps, raw, fe, draw(st.sampled_from(cals)))
             steps.append({"op": "C14", "fe": fe, "coll": draw(st.sampled_from(cals)), "name": draw(st.sampled_from(ics)), "ctype": "text/calendar", "body": enc_body(raw), "valid": False, "klass": k})
         elif fam == "deepctrl":
             k, raw = draw(deep_ctrl_calendar())
+            _maybe_prestore(draw, steps, raw, fe, draw(st.sampled_from(cals)))
             steps.append({"op": "C14", "fe": fe, "coll": draw(st.sampled_from(cals)), "name": draw(st.sampled_from(ics)), "ctype": "text/calendar", "body": enc_body(raw), "valid": False, "klass": k})
         else:
             k, raw = draw(gen.invalid_vcard())
+            _maybe_prestore(draw, steps, raw, fe, "a1")
             steps.append({"op": "C14", "fe": fe, "coll": "a1", "name": draw(st.sampled_from(vcf)), "ctype": "text/vcard", "body": enc_body(raw), "valid": False, "klass": "vcard-" + k})
         if draw(st.integers(0, 9)) == 0:
             steps.append({"op": "RESTART"})
